@@ -20,7 +20,7 @@ fn history(ty: Ty, uninit: bool, perturb: Perturb, later: bool) -> Vec<Step> {
 
 pub fn specs(thorough: bool) -> Vec<ModuleSpec> {
     let pool: Vec<Ty> = if thorough {
-        ALL_TYPES.to_vec()
+        ALL_TYPES.iter().copied().filter(|t| *t != NoSuchType).collect()
     } else {
         vec![U32, Str, Odd12, Over16, A3U8, U128]
     };
